@@ -56,7 +56,7 @@ def instances(tier, seed):
     frees = [('T',), ('t0',), ('T', 't0')]
     cs = [Fr(2), Fr(3, 2), Fr(1, 2)]
     n = 0
-    reps = 1 if tier == 'quick' else 3
+    reps = 1 if tier == 'quick' else 6
     for rep in range(reps):
         for method, intg in (('MS', 'rk'), ('SS', 'rk'), ('DC', None), ('MS', 'expl_euler'), ('SS', 'expl_euler')):
             for mi, s in enumerate(models()):
